@@ -3,12 +3,19 @@ import DK.Model.Accept
 /-!
 Driver operations of the usability property C10.
 
-* `usable.accept`   — does the model's acceptance predicate hold for a leaf description (`1` / `0`);
-* `usable.leafcons` — the constraint list of a leaf at a flow, as purely numeric rows
-  `[isEq, hasJac, jac_0 … jac_{n-1}, value]`, sorted lexicographically (so the comparison is
-  insensitive to the order in which the code emits its constraints; the Jacobian comes first because
-  its entries are exact on the floating-point side, so rounding noise in a value never decides the order);
-* `usable.treecons` — the same for a device tree (`R·n` Jacobian entries per row).
+C10 is about *shape* and *definedness* only (finite value vs. undefined), never about the values
+themselves, so every operation here answers with the definedness pattern of the model's result:
+`1` for a defined entry, `undef` for an entry whose computation divides by zero / takes an undefined
+power, `numeric` for an entry the source differentiates numerically.  A value-changing but usable
+edit of the library therefore leaves this tie intact (values are tied by C01 / C14 / C15 / C06).
+
+* `usable.accept`     — does the model's acceptance predicate hold for a leaf description (`1` / `0`);
+* `usable.leaf.cost | .deriv | .hess` — pattern of a leaf's cost (1 entry), marginal cost (`n`), Hessian (`n·n`);
+* `usable.tree.cost | .deriv`         — pattern of a tree's cost (1 entry), marginal cost (`R·n`);
+* `usable.leafcons`   — the constraint list of a leaf at a flow, as rows
+  `[isEq, hasJac, jac_0 … jac_{n-1}, value]` (pattern entries), sorted lexicographically so that the
+  comparison is insensitive to the order in which the code emits its constraints;
+* `usable.treecons`   — the same for a device tree (`R·n` Jacobian entries per row).
 -/
 namespace DK.Driver
 open Lean DK
@@ -37,6 +44,11 @@ def b2r (b : Bool) : R := if b then 1 else 0
 def rRows (rows : List (List R)) : Json :=
   .arr ((rows.mergeSort rowLe).map (fun r => Json.arr (r.map rVal).toArray)).toArray
 
+/-- definedness pattern of a partial rational. -/
+def defd (x : R) : R := match x.v with | some _ => 1 | none => XRat.undef
+
+def rDefOpt (x : Option R) : Json := match x with | some v => rVal (defd v) | none => .str "numeric"
+
 def usableOp (op : String) (j : Json) : Except String Json := do
   match op with
   | "usable.accept" => do
@@ -45,6 +57,22 @@ def usableOp (op : String) (j : Json) : Except String Json := do
       let cls ← (← fld dj "cls").getStr?
       let prod := cls == "PVDevice" || cls == "GDevice"
       pure (rVal (b2r (decide (d.Accepted prod))))
+  | "usable.leaf.cost" | "usable.leaf.deriv" | "usable.leaf.hess" => do
+      let d ← jLeaf (← fld j "dev")
+      let s ← jVec (← fld j "s")
+      let p ← match fld? j "p" with | some pj => jVec pj | none => pure (fun _ => (0 : R))
+      match op with
+      | "usable.leaf.cost" => pure (.arr #[rVal (defd (d.cost s p))])
+      | "usable.leaf.deriv" => pure (rVec d.n (fun i => defd (d.deriv s p i)))
+      | _ => pure (.arr ((List.range (d.n * d.n)).map (fun k => rDefOpt (d.hess s (k / d.n) (k % d.n)))).toArray)
+  | "usable.tree.cost" | "usable.tree.deriv" => do
+      let t ← jTree (← fld j "tree")
+      let n ← jNat (← fld j "n")
+      let S ← jMat (← fld j "S")
+      let P ← match fld? j "P" with | some pj => jMat pj | none => pure (fun _ _ => (0 : R))
+      match op with
+      | "usable.tree.cost" => pure (.arr #[rVal (defd (t.cost S P))])
+      | _ => pure (rMat t.rows n (fun r i => defd (t.deriv S P r i)))
   | "usable.leafcons" => do
       let dj ← fld j "dev"
       let d ← jLeaf dj
@@ -52,7 +80,7 @@ def usableOp (op : String) (j : Json) : Except String Json := do
       let s ← jVec (← fld j "s")
       pure (rRows (cs.map (fun c =>
         [b2r c.isEq, b2r c.jac.isSome] ++
-          (match c.jac with | some jc => (List.range d.n).map (jc s) | none => []) ++ [c.fn s])))
+          (match c.jac with | some jc => (List.range d.n).map (fun k => defd (jc s k)) | none => []) ++ [defd (c.fn s)])))
   | "usable.treecons" => do
       let t ← jTree (← fld j "tree")
       let n ← jNat (← fld j "n")
@@ -60,8 +88,8 @@ def usableOp (op : String) (j : Json) : Except String Json := do
       let Rr := t.rows
       pure (rRows ((t.cons n).map (fun c =>
         [b2r c.isEq, b2r c.jac.isSome] ++
-          (match c.jac with | some jc => (List.range (Rr * n)).map (fun k => jc S (k / n) (k % n)) | none => [])
-          ++ [c.fn S])))
+          (match c.jac with | some jc => (List.range (Rr * n)).map (fun k => defd (jc S (k / n) (k % n))) | none => [])
+          ++ [defd (c.fn S)])))
   | _ => throw s!"unknown op {op}"
 
 end DK.Driver
